@@ -96,7 +96,7 @@ type FuncVC struct {
 	callOrd      map[string]int
 	unsup        []string
 	libResults   map[string]libResult
-	Stale        []string // clauses for loops or returns the function no longer has (dropped; reported as a contract problem)
+	Stale        []string          // clauses for loops or returns the function no longer has (dropped; reported as a contract problem)
 	noTerm       []string          // loops with neither a measure nor an error-exit obligation
 	skipped      []string          // ensures clauses not checked at a return because they name a local that does not exist there
 	defKeys      map[string]bool   // heap keys that carry a definedness ghost (leaves of the outs parameters)
